@@ -137,7 +137,7 @@ def make_component(cs, trace=None):
             kw = {}
             if v.get('units'):
                 kw['units'] = v['units']
-            self.add_input(v['name'], val=np.ones(v['shape']) if v['shape'] else 1.0, **kw)
+            self.add_input(v['name'], val=np.ones(v['shape']) * v.get('val', 1.0), **kw)
         for v in cs['outputs']:
             kw = {}
             for k in ('units', 'ref', 'ref0', 'res_ref', 'lower', 'upper'):
@@ -415,10 +415,8 @@ def build_problem(spec, trace=None, setup=True, mode=None, force_alloc_complex=F
             kw['src_indices'] = dec_idx(cn['idx'])
             if cn.get('flat') is not None:
                 kw['flat_src_indices'] = cn['flat']
-        owner = groups['.'.join(cn.get('owner', []))]
-        pre = '.'.join(cn.get('owner', []))
-        cut = (len(pre) + 1) if pre else 0
-        owner.connect(cn['src'][cut:], cn['tgt'][cut:], **kw)
+        # promoted names (relative to the root) are used when the spec promotes the variable
+        root.connect(cn.get('src_p') or cn['src'], cn.get('tgt_p') or cn['tgt'], **kw)
 
     for dv in spec.get('desvars', []):
         root.add_design_var(dv['name'], **_dv_kwargs(dv))
